@@ -42,6 +42,8 @@ def fuse_consecutive_layers(mod: fx.GraphModule, first: Type[nn.Module], second:
     """
     # partially taken from: https://pytorch.org/tutorials/intermediate/fx_conv_bn_fuser.html
     modules = dict(mod.named_modules())
+    # a pair of layers invoked at several call sites (weight sharing) is fused only once
+    fused = set()
     for node in mod.graph.nodes:
         if node.op != 'call_module':
             continue
@@ -53,7 +55,9 @@ def fuse_consecutive_layers(mod: fx.GraphModule, first: Type[nn.Module], second:
             if len(node.args[0].users) > 1:
                 raise ValueError("The first layer of the pair to be fused has multiple users")
             if in_place:
-                fusion_fn(modules[node.args[0].target], modules[node.target])
+                if (node.args[0].target, node.target) not in fused:
+                    fusion_fn(modules[node.args[0].target], modules[node.target])
+                    fused.add((node.args[0].target, node.target))
             else:
                 new_first = fusion_fn(modules[node.args[0].target], modules[node.target])
                 assert isinstance(new_first, nn.Module)
